@@ -292,7 +292,7 @@ class ResourceMonitorAggregator:
             for stat_name, val in stat_dict.items():
                 if val > self._summaries["maximum"][resource_type][stat_name]:
                     self._summaries["maximum"][resource_type][stat_name] = val
-                elif val < self._summaries["minimum"][resource_type][stat_name]:
+                if val < self._summaries["minimum"][resource_type][stat_name]:
                     self._summaries["minimum"][resource_type][stat_name] = val
                 self._summaries["sum"][resource_type][stat_name] += val
 
